@@ -154,10 +154,9 @@ def _rand_variant(rng, seq, lo, hi, kind):
 
 
 def random_spec(rng, want_cn=None, pseudogene=None, kinds=None, hostile=0.3, max_len=None,
-                gaps=None, strands=None, n_majors=None, silent_kinds=None):
+                gaps=None, strands=None, n_majors=None, silent_kinds=None, name="GENX"):
     """Random consistent database.  Returns dict with keys: yml (the YAML dict), truth (dict)."""
-    name = "GENX"
-    pname = "GENXP"
+    pname = name + "P"
     if pseudogene is None:
         pseudogene = rng.random() < 0.6
     if want_cn is None:
